@@ -197,6 +197,38 @@ func claimPrims(pool map[string][]ref.Prim, pods []*corev1.Pod) map[string][]ref
 	return out
 }
 
+// termChoices lists, for every way of picking one (required x preferred) term per pod, the pool's expressions plus the
+// picked terms (at most limit combinations).
+func termChoices(pool map[string][]ref.Prim, pods []*corev1.Pod, limit int) []map[string][]ref.Prim {
+	out := []map[string][]ref.Prim{{}}
+	for k, v := range pool {
+		out[0][k] = append([]ref.Prim{}, v...)
+	}
+	for _, p := range pods {
+		var next []map[string][]ref.Prim
+		for _, base := range out {
+			for _, term := range ref.PodTerms(p) {
+				m := map[string][]ref.Prim{}
+				for k, v := range base {
+					m[k] = append([]ref.Prim{}, v...)
+				}
+				for k, v := range term {
+					m[k] = append(m[k], v...)
+				}
+				next = append(next, m)
+				if len(next) >= limit {
+					break
+				}
+			}
+			if len(next) >= limit {
+				break
+			}
+		}
+		out = next
+	}
+	return out
+}
+
 // customCombos enumerates the label values the NodeClaim may end up with for user-defined (not well-known) keys.
 func customCombos(reqs scheduling.Requirements) []map[string]string {
 	combos := []map[string]string{{}}
@@ -308,6 +340,23 @@ func newNodeView(nc *pscheduling.NodeClaim, it sim.ITSpec, ch launchChoice, cust
 	return &corev1.Node{ObjectMeta: metav1.ObjectMeta{Name: "new-node", Labels: labels}, Spec: corev1.NodeSpec{Taints: append([]corev1.Taint{}, nc.Spec.Taints...)}}
 }
 
+// mentionsKey: the pod's nodeSelector or required node affinity has an expression on the key.
+func mentionsKey(p *corev1.Pod, key string) bool {
+	if _, ok := p.Spec.NodeSelector[key]; ok {
+		return true
+	}
+	if a := p.Spec.Affinity; a != nil && a.NodeAffinity != nil && a.NodeAffinity.RequiredDuringSchedulingIgnoredDuringExecution != nil {
+		for _, t := range a.NodeAffinity.RequiredDuringSchedulingIgnoredDuringExecution.NodeSelectorTerms {
+			for _, e := range t.MatchExpressions {
+				if e.Key == key {
+					return true
+				}
+			}
+		}
+	}
+	return false
+}
+
 type placementStats struct {
 	existingPlacements, newClaims, placedPods, strandedTypes, judgedTypes, missingDaemonCases int
 	classes                                                                           map[string]bool
@@ -363,24 +412,70 @@ func (b *builtWorld) checkNewNodeClaim(nc *pscheduling.NodeClaim, c *ev.Ctx, st 
 		if !admitted {
 			// would some choice be admitted if an emptied / complement requirement were satisfied by an absent label?
 			rule := firstReject.Rule
-			for _, ch := range choices {
-				ok := true
-				for _, custom := range combos {
-					node := newNodeView(nc, it, ch, custom)
-					var residents []*corev1.Pod
-					for _, ds := range b.DaemonSets {
-						if daemonRunsOn(ds, node) {
-							residents = append(residents, daemonTemplatePod(ds))
+			// the NodeClaim's requirement on a key is the conjunction of the pool's expressions and of ONE term per
+			// co-located pod (whichever OR-ed / preferred term was in effect): try the union of all terms first, then
+			// every choice of one term per pod
+			primSets := []map[string][]ref.Prim{claimPrims(b.poolPrims(nc.NodePoolName), placed)}
+			primSets = append(primSets, termChoices(b.poolPrims(nc.NodePoolName), placed, 300)...)
+		lossy:
+			for _, prims := range primSets {
+				for _, ch := range choices {
+					ok := true
+					for _, custom := range combos {
+						node := newNodeView(nc, it, ch, custom)
+						var residents []*corev1.Pod
+						for _, ds := range b.DaemonSets {
+							if daemonRunsOn(ds, node) {
+								residents = append(residents, daemonTemplatePod(ds))
+							}
+						}
+						if (ref.NodeCase{Node: node, Allocatable: it.Allocatable(ch.of), Residents: residents, Placed: placed, PoolPrims: prims, PresenceLossy: true}).Admissible() != nil {
+							ok = false
+							break
 						}
 					}
-					if (ref.NodeCase{Node: node, Allocatable: it.Allocatable(ch.of), Residents: residents, Placed: placed, PoolPrims: claimPrims(b.poolPrims(nc.NodePoolName), placed), PresenceLossy: true}).Admissible() != nil {
-						ok = false
+					if ok {
+						rule = "affinity:presence-lost"
+						break lossy
+					}
+				}
+			}
+			// resources: would the pods fit without the daemons that only run there because a pod induced a label the
+			// pool itself does not define? (Karpenter computes daemon overhead against the pool template only)
+			if rule == "resources" {
+				poolKeys := b.poolPrims(nc.NodePoolName)
+				fits := false
+				for _, ch := range choices {
+					ok := true
+					for _, custom := range combos {
+						node := newNodeView(nc, it, ch, custom)
+						var residents []*corev1.Pod
+						for _, ds := range b.DaemonSets {
+							if !daemonRunsOn(ds, node) {
+								continue
+							}
+							induced := false
+							for k := range custom {
+								if _, defined := poolKeys[k]; !defined && mentionsKey(daemonTemplatePod(ds), k) {
+									induced = true
+								}
+							}
+							if !induced {
+								residents = append(residents, daemonTemplatePod(ds))
+							}
+						}
+						if (ref.NodeCase{Node: node, Allocatable: it.Allocatable(ch.of), Residents: residents, Placed: placed, PoolPrims: b.poolPrims(nc.NodePoolName)}).Admissible() != nil {
+							ok = false
+							break
+						}
+					}
+					if ok {
+						fits = true
 						break
 					}
 				}
-				if ok {
-					rule = "affinity:presence-lost"
-					break
+				if fits {
+					rule = "resources:daemon-enabled-by-pod-induced-label"
 				}
 			}
 			c.Violate(where+":"+rule, "NodeClaim of pool %s with pods %s may be launched as %s but no available compatible offering admits them; e.g. %s/%s/%s: %s; requirements: %s",
